@@ -275,7 +275,7 @@ func (fg *FuncGen) frameCheck(p *Ptr, pos token.Pos, what string) {
 			goal = "(or " + goal + " " + strings.Join(alts, " ") + ")"
 		}
 	}
-	fg.obl("frame", "", pos, []string{"C06", "C07", "C18"}, goal, what+" targets memory allocated by this call (or listed in assigns)")
+	fg.obl("frame", "", pos, []string{"C06", "C07", "C15", "C18"}, goal, what+" targets memory allocated by this call (or listed in assigns)")
 }
 
 func (fg *FuncGen) binop(v *ssa.BinOp) {
@@ -384,10 +384,15 @@ func (fg *FuncGen) binop(v *ssa.BinOp) {
 			term = "(= " + y.S + " VNil)"
 		case v.Op == token.NEQ && nilX:
 			term = "(not (= " + y.S + " VNil))"
-		case v.Op == token.EQL:
+		case v.Op == token.EQL || v.Op == token.NEQ:
+			// comparing two interface values panics at run time when both hold the same type and that type is not
+			// comparable: []any, map[string]any, and (unknown, so possibly) any foreign type
+			fg.obl("safe.cmp", "", v.Pos(), safetyTags, fmt.Sprintf("(not (or (and ((_ is VArr) %[1]s) ((_ is VArr) %[2]s)) (and ((_ is VObj) %[1]s) ((_ is VObj) %[2]s)) (and ((_ is VOther) %[1]s) ((_ is VOther) %[2]s) (= (votype %[1]s) (votype %[2]s)))))", x.S, y.S),
+				"== on interface values whose common dynamic type may not be comparable (runtime panic)")
 			term = "(val.ifaceeq " + x.S + " " + y.S + ")"
-		case v.Op == token.NEQ:
-			term = "(not (val.ifaceeq " + x.S + " " + y.S + "))"
+			if v.Op == token.NEQ {
+				term = "(not " + term + ")"
+			}
 		default:
 			fg.unsupp("operator %s on any", v.Op)
 			fg.declare(v)
